@@ -91,6 +91,7 @@ Cat == [
   S1  |-> Man("schema1",  {}, {"L1", "L4"}, {}, ""),          \* docker schema1: fsLayers, no config
   I1  |-> Man("index",    {}, {}, {"M1", "M2"}, ""),
   N1  |-> Man("index",    {}, {}, {"I1", "M3"}, ""),          \* nested index
+  X1  |-> Man("index",    {}, {}, {"M4", "L3"}, ""),          \* index that lists a layer blob directly
   A1  |-> Man("image",    {"E1"}, {"B1"}, {}, "M1"),          \* artifact packaged as image manifest + subject
   A2  |-> Man("artifact", {}, {"B1", "B2"}, {}, "M1"),        \* OCI artifact manifest: blobs + subject
   R1  |-> Man("index",    {}, {}, {"A1"}, ""),                \* fall-back referrer indexes of M1
@@ -100,7 +101,7 @@ Cat == [
 Mans == DOMAIN Cat
 IsMan(n) == n \in Mans
 Kids(n) == Cat[n].sub \cup Cat[n].cfg \cup Cat[n].lay
-Blb(n) == Cat[n].cfg \cup Cat[n].lay
+Blb(n) == Cat[n].cfg \cup Cat[n].lay \cup (Cat[n].sub \ Mans)   \* copied with BlobCopy
 FB == "fb-M1"                               \* the fall-back tag sha256-<M1>
 RName(S) == IF S = {"A1"} THEN "R1" ELSE IF S = {"A2"} THEN "R2"
             ELSE IF S = {"A1", "A2"} THEN "R12" ELSE "R0"
@@ -168,7 +169,7 @@ ManPut(f, i, n, t, child) ==
 -----------------------------------------------------------------------------
 CP(c) == conf.cp[c]
 InProg(c) == cst[c] \in {"run", "fail"}          \* between GCLock and GCUnlock
-Sel(c, n) == Cat[n].sub \ CP(c).skip            \* children kept by ImageWithPlatforms
+Sel(c, n) == (Cat[n].sub \cap Mans) \ CP(c).skip   \* child manifests kept by ImageWithPlatforms
 PreFiles == Closure(Nodes, {p[1] : p \in conf.pre}, {})
 
 Init ==
